@@ -29,7 +29,7 @@ def run_property(prop, tier, repo, quiet=False):
         # (a stale anchor on an already-edited tree must not turn the verdict into an error)
         try:
             import selftest
-            res = selftest.run_all([prop], repo=L.repo, jobs=int(os.environ.get("VERIF_JOBS", "16")), verbose=False)
+            res = selftest.run_all([prop], repo=L.repo, jobs=int(os.environ.get("VERIF_JOBS", "16")), verbose=False, with_patches=True)
             L.extra["selftest"] = {k: v for k, v in res.items()}
         except Exception as e:      # never let the informational part change the verdict
             L.extra["selftest"] = {"error": str(e)[:200]}
